@@ -329,6 +329,14 @@ func Adv(pj *simdjson.ParsedJson) (roots []*ref.Value, err error) {
 				if t2 := ri.Advance(); t2 != simdjson.TypeNone {
 					return fmt.Errorf("root iterator yields %v after the root's only value", t2)
 				}
+			} else if rdst != nil {
+				// leave the recycled iterator in the middle of a walk (pending skip of a multi-word
+				// element): the next Root(rdst) has to reset it
+				for i := 0; i < 3; i++ {
+					if ri.Advance() == simdjson.TypeNone {
+						break
+					}
+				}
 			}
 		}
 	})
